@@ -106,9 +106,15 @@ def _site_cond(u: _Unit, target: ast.AST):
     """'always', or ('flag', name) when the node sits in the body of `if <flag parameter>:`"""
     flags = set(u.params + u.kwonly + u.free_flags())
     for node in u.own_nodes():
-        if isinstance(node, ast.If) and isinstance(node.test, ast.Name) and node.test.id in flags:
-            if any(target is x for b in node.body for x in ast.walk(b)):
-                return ('flag', node.test.id)
+        if not isinstance(node, ast.If) or not any(target is x for b in node.body for x in ast.walk(b)):
+            continue
+        # `if flag:` or `if flag and <something else>:` (a conjunction can only narrow the cases further)
+        tests = [node.test] + (list(node.test.values) if isinstance(node.test, ast.BoolOp) and isinstance(node.test.op, ast.And) else [])
+        for t in tests:
+            if isinstance(t, ast.Name) and t.id in flags:
+                return ('flag', t.id)
+            if isinstance(t, ast.Attribute) and isinstance(t.value, ast.Name) and t.value.id == 'self' and u.is_method:
+                return ('flag', 'self.' + t.attr)
     return 'always'
 
 
